@@ -219,46 +219,74 @@ def run(ctx, chk, tier="quick"):
             shape["thru"] = c1[0] == "bin" and c1[1] == "+" and c1[2][0] == "col" and c1[2][2] == "epoch" and c1[3][0] == "param"
             shape["value"] = c2[0] == "col" and c2[2] == valcol
             thru_param = c1[3][1] if shape["thru"] else None
-        # on-grid join
-        shape["join"] = any(x.table == "grid_time" and (x.using == ["epoch"] or (x.on is not None and "epoch" in expr_str(x.on))) for x in q.sources) \
-            and any(x.table == staging for x in q.sources)
-        # upper bound
+        # on-grid restriction: JOIN grid_time on the epoch, or epoch IN (SELECT epoch FROM grid_time)
+        unknown = []
+        restr = any(x.table == "grid_time" and (x.using == ["epoch"] or (x.on is not None and "epoch" in expr_str(x.on))) for x in q.sources)
         ub = None
         for pr in conjuncts(q.where):
-            if pr[0] == "bin" and pr[1] in ("<=", "<") and pr[2][0] == "col" and pr[2][2] == "epoch" and pr[3][0] == "param":
+            if pr[0] == "bin" and pr[1] in ("<=", "<", ">=", ">") and pr[2][0] == "col" and pr[2][2] == "epoch" and pr[3][0] == "param" and pr[1] in ("<=", "<"):
                 ub = (pr[1], pr[3][1])
+            elif pr[0] == "bin" and pr[1] in (">=", ">") and pr[3][0] == "col" and pr[3][2] == "epoch" and pr[2][0] == "param":
+                ub = ({">=": "<=", ">": "<"}[pr[1]], pr[2][1])
+            elif pr[0] in ("in", "inlist") and pr[1][0] == "col" and pr[1][2] == "epoch" and len(pr[2]) == 1 and pr[2][0][0] == "subq":
+                q2 = pr[2][0][1]
+                if len(q2.sources) == 1 and q2.sources[0].table == "grid_time" and len(q2.columns) == 1 and q2.columns[0][0][0] == "col" \
+                        and q2.columns[0][0][2] == "epoch" and not q2.where:
+                    restr = True
+                else:
+                    unknown.append(expr_str(pr))
+            else:
+                unknown.append(expr_str(pr))
+        shape["join"] = restr and any(x.table == staging for x in q.sources)
         shape["bound"] = ub is not None and ub[0] == "<="
         # parameters
-        pn = s.params_node
-        par_ok = False
-        pdesc = ast.unparse(pn) if pn is not None else "?"
-        if isinstance(pn, ast.Tuple) and sel_ok and shape.get("thru") and ub is not None:
-            try:
-                pt = pn.elts[thru_param]
-                pb = pn.elts[ub[1]]
+        par_ok = None
+        pdesc = ast.unparse(s.params_node) if s.params_node is not None else "?"
+        if sel_ok and shape.get("thru") and ub is not None:
+            pt, pb = s.param(thru_param), s.param(ub[1])
+            if pt is not None and pb is not None:
                 # thru param is the step parameter of the function; bound is grid[-2]
                 step_ok = isinstance(pt, ast.Name) and pt.id in f.params
                 bnd_ok = isinstance(pb, ast.Subscript) and isinstance(pb.value, ast.Name) and pb.value.id in f.params \
                     and ast.unparse(pb.slice) == "-2"
-                # call site roles
                 calls = [c for c in ast.walk(load.node) if isinstance(c, ast.Call) and ctx.cg.resolve_callee(load, c.func) == [f.fq]]
-                role_ok = False
-                if calls:
+                role_ok = None
+                if calls and step_ok and bnd_ok:
                     c = calls[0]
                     bind = {}
-                    for i, a in enumerate(c.args):
-                        if i < len(f.params):
-                            bind[f.params[i]] = a
+                    for i_, a in enumerate(c.args):
+                        if i_ < len(f.params):
+                            bind[f.params[i_]] = a
                     for k in c.keywords:
                         bind[k.arg] = k.value
-                    a_step, a_grid = bind.get(pt.id if step_ok else None), bind.get(pb.value.id if bnd_ok else None)
-                    role_ok = isinstance(a_step, ast.Name) and role.get(a_step.id) == "step" and isinstance(a_grid, ast.Name) and role.get(a_grid.id) == "grid"
-                par_ok = step_ok and bnd_ok and role_ok
-            except (IndexError, TypeError):
-                par_ok = False
+                    a_step, a_grid = bind.get(pt.id), bind.get(pb.value.id)
+                    if isinstance(a_step, ast.Name) and isinstance(a_grid, ast.Name) and role.get(a_step.id) and role.get(a_grid.id):
+                        role_ok = role.get(a_step.id) == "step" and role.get(a_grid.id) == "grid"
+                def readable(e):
+                    # a parameter of the function, or a constant-indexed element of one
+                    if isinstance(e, ast.Name):
+                        return e.id in f.params
+                    return isinstance(e, ast.Subscript) and isinstance(e.value, ast.Name) and e.value.id in f.params and not isinstance(e.slice, ast.Slice) \
+                        and isinstance(e.slice, (ast.Constant, ast.UnaryOp))
+                if role_ok is not None:
+                    par_ok = step_ok and bnd_ok and role_ok
+                elif readable(pt) and readable(pb) and not (step_ok and bnd_ok):
+                    par_ok = False
+        def plain(e):
+            # built from columns, parameters, + and - only
+            return e is not None and (e[0] in ("col", "param", "num") or (e[0] == "bin" and e[1] in ("+", "-") and plain(e[2]) and plain(e[3])))
+        if sel_ok and plain(c0) and plain(c1) and not (shape.get("from") and shape.get("thru")):
+            chk.ob("C10.O2", False, where_of(f, s.call), "%s <- (%s, %s, ...)" % (tab, expr_str(c0), expr_str(c1)),
+                   "each on-grid staging row up to the second-to-last grid time becomes the step [epoch, epoch + step)",
+                   key="%s|copy" % f.qualname, why="values attached to another interval, or a row at the closing instant, misplace the series by one step")
+            shapes[tab] = (tuple(sorted(shape.items())), False)
+            continue
+        if not sel_ok or par_ok is None or (unknown and not all(shape.values())):
+            chk.indeterminate("C10.O2", where_of(f, s.call), "%s copy: select list / predicates %s / parameters %s not of a recognised form" % (tab, unknown, pdesc[:60]))
+            continue
         allok = sel_ok and all(shape.values()) and par_ok
         chk.ob("C10.O2", allok, where_of(f, s.call),
-               "%s <- (epoch, epoch + ?, value): %s; on-grid join: %s; epoch <= ?: %s; parameters %s bound to (step, grid[-2]): %s"
+               "%s <- (epoch, epoch + ?, value): %s; on-grid restriction: %s; epoch <= ?: %s; parameters %s bound to (step, grid[-2]): %s"
                % (tab, [shape.get("from"), shape.get("thru"), shape.get("value")], shape.get("join"), shape.get("bound"), pdesc, par_ok),
                "each on-grid staging row up to the second-to-last grid time becomes the step [epoch, epoch + step)",
                key="%s|copy" % f.qualname, why="values attached to another interval, or a row at the closing instant, misplace the series by one step")
